@@ -203,6 +203,17 @@ pub fn print_sized_line<B, D>(labels: &Vec<D>, widths: &B, result: &BDD)
     requires !(*result is Choice)
 { unimplemented!() }
 
+// [A15] N14: `NAME.clone() + "*"` of the `-v` printer
+#[verifier::external_body]
+pub fn starred(s: &String) -> (r: String)
+    ensures r@ == s@ + seq!['*']
+{ unimplemented!() }
+
+// [A15] N14: println!("{};", names.join(", ")) of the `-v` printer
+#[verifier::external_body]
+pub fn print_names_line(names: &Vec<String>)
+{ unimplemented!() }
+
 // [A14] output macros: effect on stdout/stderr not modelled
 pub assume_specification [std::io::_eprint] (args: core::fmt::Arguments<'_>);
 pub assume_specification [std::io::_print] (args: core::fmt::Arguments<'_>);
